@@ -67,6 +67,18 @@ func (sc *subscriptionCancellations) CancelAll() {
 	}
 }
 
+// CancelAndRemoveAll cancels every registered subscription and removes it from the registry.
+// The registry is shared with the goroutines of running operations (they release their id when
+// they finish), so it must only be iterated with the lock held.
+func (sc *subscriptionCancellations) CancelAndRemoveAll() {
+	sc.mu.Lock()
+	defer sc.mu.Unlock()
+	for id, cancelFunc := range sc.cancellations {
+		cancelFunc()
+		delete(sc.cancellations, id)
+	}
+}
+
 func (sc *subscriptionCancellations) Len() int {
 	sc.mu.RLock()
 	defer sc.mu.RUnlock()
